@@ -81,7 +81,7 @@ def make_spec(seed, index: int, tier: str) -> dict:
         "njob": r.choice([1, 2, 2, 3]),
         "sched": r.choice(["fifo", "fifo", "lifo", "random"]),
         "restart_sched": r.choice(["fifo", "random", "random"]),
-        "nmut": r.choice([0, 0, 1, 1, 2]),
+        "nmut": r.choice([0, 1, 1, 1, 2, 2]),
         "mut_seed": r.randrange(1 << 30),
         "step_points": True,
     }
@@ -364,15 +364,24 @@ class _Case:
             # F9: a command ran while the row of its step was not RUNNING (the step was redefined by its
             # re-running creator and reset to PENDING with the job still in flight).  Everything else that
             # goes wrong in such a restart is a consequence, so it is reported once, under this signature.
+            import simcases
+
             reset = state["watch"].windows_not_running(restart.runs)
-            if reset:
+            twice = simcases.jobs_in_flight_twice(restart.jobs)
+            if reset or twice:
                 self.count("restarts-with-row-reset-under-running-command")
-                r0 = reset[0]
+                if reset:
+                    r0 = reset[0]
+                    text = (f"the command of step '{r0['step']}' (job {r0['job']}) was running (logical time "
+                            f"{r0['window']}) while its step row was in state {r0['state']} at commit {r0['commit']}")
+                else:
+                    r0 = twice[0]
+                    text = (f"step '{r0['step']}' had two jobs in flight at once (jobs {r0['jobs']}, kinds {r0['kinds']}, "
+                            f"logical times {r0['windows']})")
                 self.finding("running-step-row-reset",
-                             f"restart after a kill at {point}: the command of step '{r0['step']}' (job {r0['job']}) was "
-                             f"running (logical time {r0['window']}) while its step row was in state {r0['state']} at "
-                             f"commit {r0['commit']}: its re-running creator redefined the running step; restart ended "
-                             f"with status {restart.status} / {restart.returncode!r}", point=point, resets=reset[:3],
+                             f"restart after a kill at {point}: {text}: its re-running creator redefined the step while "
+                             f"a job of it was in flight; restart ended with status {restart.status} / "
+                             f"{restart.returncode!r}", point=point, resets=reset[:3], twice=twice[:3],
                              status=restart.status, error=(restart.error or "")[-1200:],
                              commands=restart.commands)
                 return
@@ -447,9 +456,9 @@ class _Case:
                              restarted={p: restart.files[p].decode("utf-8", "replace")[:400] for p in differ[:2]})
             scope, digest = graph_diff(ref.graph_canon, restart.graph_canon)
             if scope:
-                self.finding("restart-graph-differs:" + line_names(scope),
+                self.finding("restart-graph-differs",
                              f"after a kill at {point} and the restart the graph differs from the uninterrupted "
-                             f"build: {scope[:3]}", point=point, differences=scope[:20])
+                             f"build in the lines {line_names(scope)}: {scope[:3]}", point=point, differences=scope[:20])
             elif digest:
                 self.finding("restart-graph-differs:inp_digest-only",
                              f"after a kill at {point} and the restart only step inp_digest values differ: {digest[:2]}",
@@ -561,7 +570,7 @@ def _merge(ctx, task, res):
 async def search(ctx):
     import simpool
 
-    ncase = ctx.budget(10, 260)
+    ncase = ctx.budget(14, 240)
     specs = [make_spec(ctx.seed, i, ctx.tier) for i in range(ncase)]
     soft = 55 if ctx.tier == "quick" else 900
     ran = 0
